@@ -205,6 +205,36 @@ class Dialect:
         return paths
 
 
+def lr_first_error(d, kinds):
+    """independent table-driven LR simulation (no error recovery, no semantic actions): index of the first token for which the
+    generated table has no action (len(kinds) when only the end of input is missing / the input is accepted), and whether it is accepted"""
+    states = [0]
+    i = 0
+    toks = list(kinds) + ['$end']
+    steps = 0
+    while True:
+        steps += 1
+        if steps > 100000:
+            return i, False
+        s = states[-1]
+        if s in d.defaulted:
+            t = d.defaulted[s]
+        else:
+            t = d.action[s].get(toks[i])
+        if t is None:
+            return i, False
+        if t > 0:
+            states.append(t)
+            i += 1
+        elif t < 0:
+            p = d.prods[-t]
+            if p.len:
+                del states[-p.len:]
+            states.append(d.goto[states[-1]][p.name])
+        else:
+            return len(kinds), True
+
+
 def load(name):
     if name not in _loaded:
         _loaded[name] = Dialect(name)
